@@ -1271,6 +1271,9 @@ func checkIOErrorCloses(c *Ctx) map[*ssa.Function]bool {
 	closers := map[string]bool{"(*" + T + "TraditionalDnsConn).CloseWithErr": true, "(*" + T + "reusableConn).closeWithErr": true}
 	closerFns := map[*ssa.Function]bool{}
 	isCloser := func(in ssa.Instruction) bool {
+		if g, isGo := in.(*ssa.Go); isGo && closers[callNameCommon(&g.Call)] && asyncCloseObserved(c, g) {
+			return true // closed in a goroutine, but the caller waits for the reader's exit before it leaves (D39)
+		}
 		ci, ok := in.(*ssa.Call)
 		if !ok {
 			return false
